@@ -8,7 +8,7 @@
 (*  - AllowedMacros: macros generated code may invoke (core-only).           *)
 (***************************************************************************)
 EXTENDS Naturals, Sequences
-Configs == {"no_std", "renamed", "nested", "shadow"}
+Configs == {"no_std", "renamed", "nested", "alias", "facade", "shadow"}
 \* every in-domain definition compiles under every configuration
 ExpectedOutcome(config) == TRUE
 \* a root is logged as a string: "::core", "::std", "::alloc", "::strum", "core", "std", "alloc", or the configured
